@@ -275,7 +275,7 @@ def run_variant(sc, binf, d, info):
         apf = binf.with_suffix(".cbin")
         mtscomp.compress(binf, out=apf, outmeta=binf.with_suffix(".ch"), sample_rate=30000, n_channels=d.shape[1], dtype=np.int16)
         binf.unlink()
-    if sc.get("pre"):
+    if sc.get("pre") and sc["pre"] != "twice_force":
         # leftovers of an earlier run on ANOTHER recording under every name this run writes: longer binaries, stale metadata
         stale = mtxt + "staleLeftover=1\n"
         junk = b"\x5a" * (d.shape[0] * frame + 770)
@@ -319,9 +319,12 @@ def run_variant(sc, binf, d, info):
     # the run's own verification (the constructor's default) compares ALL columns: not when only some of the shanks are written
     pchk = bool(sc.get("post_check")) and (not sc.get("nshank_pick") or wanted_shanks(sc, info) == wanted_shanks(dict(sc, nshank_pick=None), info))
     status, events, conv, exc, first = n2.convert_opts(str(apf) if sc.get("path_type") == "str" else apf, init, compress=bool(sc.get("compress")),
-                                                       post_check=pchk, overwrite=bool(sc.get("pre")), decline_first=sc.get("pre") == "decline_force", np21=np21)
+                                                       post_check=pchk, overwrite=bool(sc.get("pre")), decline_first=sc.get("pre") == "decline_force", np21=np21,
+                                                       twice=sc.get("pre") == "twice_force")
     if sc.get("pre") == "decline_force" and first != 0 and not exc:
         exc = f"process() returned {first} although every output folder existed"
+    if sc.get("pre") == "twice_force" and first != 1 and not exc:
+        exc = f"the first process() of the object returned {first} on a fresh folder"
     return status, events, conv, exc, rc_early
 
 
